@@ -70,7 +70,9 @@ Dd(a, c) == IF a = c THEN 0 ELSE Tr.Wd[a][c]
 IdsOK == /\ \A i \in Nodes : SeqSet(Tr.adj0[i]) \subseteq Nodes /\ SeqSet(Tr.adj[i]) \subseteq Nodes
          /\ \A i \in Nodes : pred[i] \in Nodes \cup {NIL} /\ root[i] \in Nodes
 \* the graph the clustering ran on: a true k-NN graph of the training distances plus equal-density back arcs
-GraphOK == /\ \A i \in Nodes : K!ArcsOK(Dd, i, Tr.adj0[i], Tr.k)
+\* (traces with direct = 1 come from scenarios whose graph was installed through the public node attributes instead
+\*  of being built from distances: there is no distance matrix to judge the graph against)
+GraphOK == /\ (Tr.direct = 1 \/ \A i \in Nodes : K!ArcsOK(Dd, i, Tr.adj0[i], Tr.k))
            /\ \A j \in Nodes : adj[j] \subseteq adj0[j] \cup Plateau(j, adj0, Dens)
 QFun(qi) == [t \in Nodes |-> Tr.q[qi].dx[t]]
 \* Admitted forms of the query density (fixed positions in Tr.q[qi].rho): divisor k or k+1, range with or
@@ -99,7 +101,7 @@ Bad ==
   \cup b(C13rootdens, <<"C13", "density_exceeds_roots_by_1_or_more">>)
   \cup b(IsUnsup => C13count, <<"C13", "n_clusters_is_not_number_of_roots">>)
   \cup b(IsUnsup => C13ids, <<"C13", "root_cluster_ids_not_0_to_n_minus_1">>)
-  \cup b((~IsUnsup) => \A s \in Nodes : plab[s] = L[s], <<"C04", "knn_training_sample_lost_own_label">>)
+  \cup b((~IsUnsup /\ force) => \A s \in Nodes : plab[s] = L[s], <<"C04", "knn_training_sample_lost_own_label">>)
   \cup b(AllPredOK, <<"C14", "prediction_not_label_of_a_max_min_neighbour">>)
 
 ASSUME /\ TLCSet(1, {}) /\ TLCSet(2, {}) /\ TLCSet(3, {}) /\ TLCSet(6, {})
